@@ -132,8 +132,23 @@ def run_cases(run, cases, label, use_oracle=True):
                     if unquote_marks(r2.ev(c["page_ast"], None), r["out"]) == r["out"]:
                         sig = name
                         break
+                leak_sig = None
+                if not sig and not c["opts"].get("parserfns", True):
+                    for kl, sw in ((False, False), (True, False), (False, True), (True, True)):
+                        r3 = G.Ref(lib_for_ref, kludge=kl, trim_first=False, switch_default_wins=sw, opts=c["opts"], leak=True)
+                        o3 = unquote_marks(r3.finish(r3.ev(c["page_ast"], None)), r["out"])
+                        if not r3.unsupported and o3 == r["out"]:
+                            leak_sig = "c13:unexpanded-parser-function-args-expanded-late"
+                            break
                 squash = lambda t_: re.sub(r"\s+", "", t_).lower()
-                if not sig and label.startswith("sel") and not c["opts"].get("parserfns", True) and "{{#" in c["page"] + str(c["lib"]) \
+                if leak_sig:
+                    run.property_failure(leak_sig, "output %r, reference %r: calls inside the arguments of an unexpanded parser "
+                                         "function were expanded after the value was substituted into a template body"
+                                         % (r["out"], want), {k: c[k] for k in ("lib", "page", "opts", "title")})
+                    sig = "handled"
+                if sig == "handled":
+                    pass
+                elif not sig and label.startswith("sel") and not c["opts"].get("parserfns", True) and "{{#" in c["page"] + str(c["lib"]) \
                         and squash(want) == squash(r["out"]):
                     sig = "c13:identity:whitespace-in-unexpanded-parser-function"
                     run.property_failure(sig, "output %r, reference %r (differs only by blanks in an unexpanded parser function)"
